@@ -232,6 +232,12 @@ var routings = []struct{ id, expr string }{
 	{"append-vector", "(append 'vector %s)"},
 	{"apply-rest-list", "(apply (lambda (&rest r) r) %s)"},
 	{"funcall-rest-view", "((lambda (&rest r) (cdr r)) 0 3 1 2)"},
+	// constant parts of a quasiquote template (%b = the literal without its quote mark): a level with no unquote in it
+	{"quasiquote-const-top", "(quasiquote %b)"},
+	{"quasiquote-const-sublist", "(car (cdr (quasiquote ((unquote (+ 0 0)) %b))))"},
+	{"quasiquote-const-sublist-view", "(cdr (car (cdr (quasiquote ((unquote (+ 0 0)) %b)))))"},
+	{"quasiquote-spliced", "(cdr (quasiquote (0 (unquote-splicing %s))))"},
+	{"macro-template-const", "(mac-const)"},
 }
 
 var literals = []struct{ id, text string }{
@@ -255,7 +261,7 @@ type rcase struct {
 	Std bool   `json:"stdlib"`
 }
 
-const routingPrelude = "(defmacro mac-rest (&rest xs) (quasiquote (quote (unquote xs))))\n"
+const routingPrelude = "(defmacro mac-rest (&rest xs) (quasiquote (quote (unquote xs))))\n(defmacro mac-const () (quasiquote (quote ((unquote (+ 1 2)) 1 2))))\n"
 
 func routeProgram(c callable, pos int, fill []string, rt, lit, mut int) string {
 	qual := c.name
@@ -273,6 +279,7 @@ func routeProgram(c callable, pos int, fill []string, rt, lit, mut int) string {
 		}
 	}
 	r := routings[rt].expr
+	r = strings.ReplaceAll(r, "%b", strings.TrimPrefix(literals[lit].text, "'"))
 	if strings.Contains(r, "%s") {
 		r = fmt.Sprintf(r, literals[lit].text)
 	}
@@ -360,11 +367,11 @@ func tableRouting(r *core.Run) {
 	}
 	var jobs []job
 	nfill := 3
-	rts := []int{0, 1, 2, 4, 6, 8, 10}
+	rts := []int{0, 1, 2, 4, 6, 8, 10, 12, 13, 16}
 	lits := []int{0, 1}
 	if r.Thorough() {
 		nfill = len(fillers)
-		rts = []int{0, 1, 2, 3, 4, 5, 6, 7, 8, 9, 10, 11}
+		rts = []int{0, 1, 2, 3, 4, 5, 6, 7, 8, 9, 10, 11, 12, 13, 14, 15, 16}
 		lits = []int{0, 1, 2, 3}
 	}
 	for _, c := range cs {
@@ -734,7 +741,7 @@ func freeRunning(r *core.Run) {
 }
 
 func run(r *core.Run) {
-	r.Rule("A: every registered callable of a stdlib runtime x every argument position (<=3) x filler tuple x routing of a program literal into that position (quoted literal, cdr view, slice 'list view, nested element, &rest list, quasiquote output, macro &rest list, append copy, slice 'vector, append 'vector, apply into a &rest list, &rest view) x literal x follow-up mutator (none, stable-sort, append!, sort of the literal itself): shared parse loaded twice in one runtime and once in another vs a fresh parse; " +
+	r.Rule("A: every registered callable of a stdlib runtime x every argument position (<=3) x filler tuple x routing of a program literal into that position (quoted literal, cdr view, slice 'list view, nested element, &rest list, quasiquote output, macro &rest list, append copy, slice 'vector, append 'vector, apply into a &rest list, &rest view, constant top level / constant sub-list / view of a constant sub-list of a quasiquote template, spliced literal, constant part of a macro's template) x literal x follow-up mutator (none, stable-sort, append!, sort of the literal itself): shared parse loaded twice in one runtime and once in another vs a fresh parse; " +
 		"B: BFS over all load histories (runtime index per load, canonical numbering) up to the depth bound for every hand-written program; " +
 		"C: every schedule of K runtimes sharing one Program with at most the preemption bound, scheduling point = every evaluation step; invariants evaluated in every global state. Non-trivial: routing programs distinct by text; schedule programs by text")
 	r.Assume("the parsed tree is observed through lisp.SealedASTFingerprint plus an independent structural dump (type, name, numbers, quote/seal flags, positions, children) and lisp.TakeSingletonSnapshot")
